@@ -53,3 +53,8 @@ CHECKS["C08"] = {
          "documented; (b) every public attribute assignment followed by commit leaves the stored row equal to the entry; (c) after EVERY engine step of all 2-operation C01 histories the "
          "decoded storage equals the live entries and a reloaded state gives the same lookups and pending set.",
  "technique": "bounded exhaustive exploration; field shapes, assignments, user operations and schedules are z3 integer choices enumerated by solver-decided branching over the real codec/state/engine; per-step storage-vs-memory oracle"}
+CHECKS["C03"] = {
+ "text": "Exhaustive bounded exploration with solver-enumerated choices (M2): all one-sided histories of 2 (thorough 3) operations from 16 kinds, both directions, three synchronised base "
+         "trees, every 1-slot (2-slot) schedule, through the real engine. Origin side unchanged across every engine step, exact mirror without '.conflicted' at quiescence, and no "
+         "provider write in three further rounds.",
+ "technique": "bounded exhaustive exploration; one-sided operation histories and schedule slots are z3 integer choices enumerated by solver-decided branching over the real engine; per-step origin snapshot, mirror and echo oracles"}
